@@ -135,6 +135,9 @@ fn wrap(total_bytes: usize, pend_seed: u64, f: impl FnOnce(u64) -> bool) -> RunO
         Ok(stuck) => out.stuck = stuck,
         Err(_) => out.panic = Some(take_panic()),
     }
+    if ev::take_invalid_utf8() && out.panic.is_none() {
+        out.panic = Some("a handler received a &str argument that is not valid UTF-8 @ handler boundary".to_string());
+    }
     out.log = ev::take();
     out
 }
